@@ -175,6 +175,11 @@ def base_cases(draw):
             units.append([t, t + d, draw(st.sampled_from(["A", "B", "C"]))])
         t += draw(gen.dyadic(-2, 15))
         t = max(t, 0.0)
+    if draw(st.integers(0, 7)) == 0:
+        # a few units barely longer than pyannote's segment precision (1e-6): splitting them may be impossible
+        for j in range(draw(st.integers(1, 3))):
+            s0 = 1000.0 + 10 * j
+            units.append([s0, s0 + draw(st.sampled_from([1.5e-6, 3e-6, 2e-5])), "A"])
     seen, out = set(), []
     for u in units:
         if tuple(u) not in seen:
